@@ -22,7 +22,7 @@ def run(chk):
     chk.add_mc(mc("MC_Quant", "MC_Quant.cfg", workers=4))
     chk.add_neg(mc("MC_Quant", "NEG_C08_trunc.cfg", expect_fail=True))
     chk.add_neg(mc("MC_Quant", "NEG_C11_roundpos.cfg", expect_fail=True))
-    t = record("probes", chk.path("probes.ndjson"), seed=chk.seed, per_field=40 if q else 2500, timeout=3000)
+    t = record("probes", chk.path("probes.ndjson"), seed=chk.seed, per_field=40 if q else 500, timeout=3000)
     r = tv("Trace_Probe", "Trace_Probe.cfg", t, reset_events=("ProbeBegin",), shards=12, tag="C11")
     chk.add_tv("probes", r)
     report_rejects(chk, r, sig, lambda ev, d: "quantiser probe violates Nearest/monotone for field %s (t=%s/16)" % (ev.get("id"), ev.get("t16")))
